@@ -120,6 +120,9 @@ THEOREMS = [
     "OllamaVerif.C13.cross_modelpath_scheme_witness",
     "OllamaVerif.C13.cross_modelpath_scheme",
     "OllamaVerif.C13.cross_modelpath",
+    "OllamaVerif.C13.equalFold_ascii_iff",
+    "OllamaVerif.C13.nameEqualFold_iff",
+    "OllamaVerif.C13.equalFold_names_same_cache_link",
     "OllamaVerif.Tie.C13.first_sets_match",
     "OllamaVerif.Tie.C13.rest_sets_match",
     "OllamaVerif.Tie.C13.length_limits_match",
@@ -259,7 +262,7 @@ def tie_witnesses(ctx):
 REQUIRED_COUNTERS = [
     # types/model: accept / reject, Filepath defined, relative paths, part rule, the third printer's two outcomes
     "name_accepted", "name_rejected", "relpath_accepted", "relpath_rejected", "part_accepted", "bare_valid", "model_valid",
-    "display_roundtrip_exact", "display_roundtrip_case_only",
+    "display_roundtrip_exact", "display_roundtrip_case_only", "nfold_equal", "nfold_different",
     # names: both directions of disagreement between the packages' acceptance are seen (valid-but-unqualified forms)
     "accept_model_only", "accept_names_only", "merged_fq", "merged_rejected", "maxnamelength_probe",
     # legacy server: ParseModelPath / GetManifestPath / GetBlobsPath (three outcomes) / odd roots / enumeration / copy
@@ -386,7 +389,7 @@ def run(ctx):
 
 
 OPS_OF = {
-    "model": {"mname", "mpath", "vpartM"},
+    "model": {"mname", "mpath", "vpartM", "nfold"},
     "names": {"nname", "vpartN"},
     "blob": {"digest", "getfile", "n2p", "mfpath", "snd", "resolve", "fold", "hist", "p2n"},
     "server": {"mp", "blobs", "clean", "join", "canon", "enum", "copy"},
